@@ -288,6 +288,13 @@ func Consensus(trees <-chan Trees, cutoff float64) (*Tree, error) {
 			return nil, curtree.Err
 		}
 
+		// The two branches of a bifurcating root define one single bipartition:
+		// we count the bipartitions of an unrooted copy of the tree
+		if curtree.Tree.Rooted() {
+			curtree.Tree = curtree.Tree.Clone()
+			curtree.Tree.UnRoot()
+		}
+
 		if err = curtree.Tree.ReinitIndexes(); err != nil {
 			return nil, err
 		}
